@@ -152,6 +152,8 @@ structure St where
   nl : Nat                 -- label counter
   cnt : Nat                -- varScope.localsCnt
   scopes : Scopes
+  nextLabel : Option String := none      -- codegen.nextLabel: the Go label of the statement being entered
+  sb : Nat := 0                          -- SwitchStmt's startLabels[i]: the start label of the clause being compiled
   deriving Repr
 
 /-- varScope.newLocal (vars.go:92-103). -/
@@ -163,15 +165,68 @@ def St.newLocal (st : St) (x : String) : St :=
 def St.push (st : St) : St := { st with scopes := [] :: st.scopes }
 def St.pop (st : St) : St := { st with scopes := st.scopes.tail }
 
-/-- labels of the enclosing loop: (break target, continue target). -/
-abbrev LoopCtx := Option (Nat × Nat)
+/-- one entry of codegen.labelList (pushStackLabel, codegen.go:1886-1897) together with what codegen.labels maps the
+    entry's name to: the enclosing `for` and `switch` statements, innermost first.  An unlabeled statement has
+    `name = none` (the compiler invents "@<n>", which no Go label can equal).  `scLen` is not used for code: it
+    records how many scopes are open at the statement's end / post marks (the proofs need it). -/
+structure LEntry where
+  name : Option String
+  isFor : Bool             -- `for` (keeps nothing on the stack) or `switch` (keeps its tag: labelList sz = 1)
+  eqNum : Bool := false    -- `switch`: the tag is a number, cases are compared with NUMEQUAL (else EQUAL)
+  endL : Nat               -- labelEnd
+  postL : Nat              -- labelPost (`for` only; codegen.labels yields 0 for a missing key)
+  scLen : Nat
+  deriving Repr
+
+def LEntry.sz (e : LEntry) : Nat := if e.isFor then 0 else 1
+
+abbrev LoopCtx := List LEntry
+
+/-- stack items kept by all enclosing statements (ReturnStmt, codegen.go:886-894). -/
+def totalSz : LoopCtx → Nat
+  | [] => 0
+  | e :: r => e.sz + totalSz r
+
+/-- BranchStmt (codegen.go:1425-1450), `break`: the entry that is left and the number of stack items to drop on the
+    way (the sizes of the entries inside it).  Unlabeled: codegen.currentSwitch = the innermost entry. -/
+def findBrk (l : Option String) : LoopCtx → Nat → Option (Nat × LEntry)
+  | [], _ => none
+  | e :: r, acc =>
+    if (match l with | none => true | some x => e.name == some x) then some (acc, e)
+    else findBrk l r (acc + e.sz)
+
+/-- `continue`: unlabeled = codegen.currentFor = the innermost `for`. -/
+def findCont (l : Option String) : LoopCtx → Nat → Option (Nat × LEntry)
+  | [], _ => none
+  | e :: r, acc =>
+    if (match l with | none => e.isFor | some x => e.name == some x) then some (acc, e)
+    else findCont l r (acc + e.sz)
+
+/-- the `case *ast.BranchStmt` of Visit (codegen.go:1425-1450) has no `return nil` after the jump is emitted, so
+    ast.Walk goes on to the children of the statement: the label identifier of `break L` / `continue L`.  Visit
+    treats it as a variable — emitLoadVar — and getVarIndex (codegen.go:299-314) allocates a NEW LOCAL of that name
+    when there is neither a local nor an argument called `L`.  The load is dead code behind the jump, but the slot
+    counts for INITSLOT. -/
+def St.phantom (cx : Ctx) (st : St) (l : String) : St :=
+  match lookupSlot st.scopes l, indexOf cx.args l with
+  | none, none => st.newLocal l
+  | _, _ => st
 
 def dropN : Nat → Code
   | 0 => []
   | n + 1 => .ins .drop :: dropN n
 
-/-- statements: Visit for AssignStmt, IncDecStmt, GenDecl, ExprStmt, IfStmt, ForStmt, ReturnStmt, BranchStmt,
-    BlockStmt. -/
+/-- dropItems (codegen.go:1899-1909). -/
+def dropItems (n : Nat) : Code :=
+  if n < 4 then dropN n else [.ins (.pushInt n), .ins .pack, .ins .drop]
+
+def clauseCount : Stmt → Nat
+  | .caseS _ _ _ _ rest => clauseCount rest + 1
+  | .defaultS _ => 1
+  | _ => 0
+
+/-- statements: Visit for AssignStmt, IncDecStmt, GenDecl, ExprStmt, IfStmt, ForStmt, SwitchStmt, ReturnStmt,
+    BranchStmt, LabeledStmt, BlockStmt. -/
 def compS (cx : Ctx) (lp : LoopCtx) : Stmt → St → Code × St
   | .skip, st => ([], st)
   | .seq a b, st =>
@@ -231,29 +286,74 @@ def compS (cx : Ctx) (lp : LoopCtx) : Stmt → St → Code × St
       let (ce, st2) := compS cx lp els st1
       (cc ++ [.lbl st.nl] ++ ct ++ [.ins (.jmp lElseEnd), .lbl lElse] ++ ce ++ [.lbl lElseEnd], st2.pop)
   | .loop init cond post body, st =>
+    -- ForStmt (codegen.go:1469-1512): generateLabel consumes nextLabel; the entry is pushed after the init statement
     let fstart := st.nl
     let fend := st.nl + 1
     let fpost := st.nl + 2
-    let st0 := { st with nl := st.nl + 3 }.push
+    let ent : LEntry := { name := st.nextLabel, isFor := true, endL := fend, postL := fpost, scLen := st.scopes.length + 1 }
+    let st0 := { st with nl := st.nl + 3, nextLabel := none }.push
     let (ci, st1) := compS cx lp init st0
     let (cc, nl2) : Code × Nat := match cond with
       | none => ([], st1.nl)
       | some c =>
         let (cc, n) := compE cx st1.scopes c .val st1.nl
         (cc ++ [Item.ins (.jmpIfNot fend)], n)
-    let (cb, st3') := compS cx (some (fend, fpost)) body { st1 with nl := nl2 }.push
+    let (cb, st3') := compS cx (ent :: lp) body { st1 with nl := nl2 }.push
     let st3 := st3'.pop
     let (cp, st4) := compS cx lp post st3
     (ci ++ [Item.lbl fstart] ++ cc ++ cb ++ [Item.lbl fpost] ++ cp ++ [Item.ins (.jmp fstart), Item.lbl fend], st4.pop)
-  | .ret none, st => ([.ins .ret], st)
+  | .ret none, st => (dropItems (totalSz lp) ++ [.ins .ret], st)
   | .ret (some e), st =>
+    -- ReturnStmt (codegen.go:882-929): the items kept by enclosing statements are dropped first, then the result
     let (ce, nl1) := compE cx st.scopes e .val st.nl
-    (ce ++ [.ins .ret], { st with nl := nl1 })
-  | .brk, st => (match lp with | some (b, _) => [.ins (.jmp b)] | none => [], st)
-  | .cont, st => (match lp with | some (_, c) => [.ins (.jmp c)] | none => [], st)
+    (dropItems (totalSz lp) ++ ce ++ [.ins .ret], { st with nl := nl1 })
+  | .brk, st => (match findBrk none lp 0 with | some (d, e) => dropItems d ++ [.ins (.jmp e.endL)] | none => [], st)
+  | .cont, st => (match findCont none lp 0 with | some (d, e) => dropItems d ++ [.ins (.jmp e.postL)] | none => [], st)
+  | .brkL l, st =>
+    ((match findBrk (some l) lp 0 with | some (d, e) => dropItems d ++ [.ins (.jmp e.endL)] | none => []) ++
+      loadVar cx (st.phantom cx l).scopes l, st.phantom cx l)
+  | .contL l, st =>
+    ((match findCont (some l) lp 0 with | some (d, e) => dropItems d ++ [.ins (.jmp e.postL)] | none => []) ++
+      loadVar cx (st.phantom cx l).scopes l, st.phantom cx l)
   | .block body, st =>
     let (c, st1) := compS cx lp body st.push
     (c, st1.pop)
+  | .labeled l s, st =>
+    -- LabeledStmt (codegen.go:1452-1457): the name waits in nextLabel for the next generateLabel
+    compS cx lp s { st with nextLabel := some l }
+  | .switchS tag tagInt cl, st =>
+    -- SwitchStmt (codegen.go:959-1032): own scope; the tag (or `true`) stays on the stack until the end mark;
+    -- generateLabel (consuming nextLabel) comes after the tag; one start label per clause is reserved up front
+    let st0 := st.push
+    let (ct, nl1) : Code × Nat := match tag with
+      | some e => compE cx st0.scopes e .val st0.nl
+      | none => ([.ins .pushT], st0.nl)
+    let endL := nl1
+    let ent : LEntry := { name := st.nextLabel, isFor := false, endL := endL, postL := 0, scLen := st0.scopes.length, eqNum := tagInt }
+    let st1 := { st0 with nl := nl1 + 1 + clauseCount cl, nextLabel := none, sb := nl1 + 1 }
+    let (cc, st2) := compS cx (ent :: lp) cl st1
+    (ct ++ cc ++ [.lbl endL, .ins .drop], { st2.pop with sb := st.sb })
+  | .caseS e1 e2 body ft rest, st =>
+    -- one CaseClause of the innermost switch (the head of `lp`); its start label is `st.sb`
+    let endL := match lp with | e :: _ => e.endL | [] => 0
+    let eq : Op Nat := match lp with | e :: _ => (if e.eqNum then .numEq else .equal) | [] => .equal
+    let sb := st.sb
+    let lEnd := st.nl
+    let (c1, nl1) := compE cx st.scopes e1 .val (st.nl + 1)
+    let (tests, nl2) : Code × Nat := match e2 with
+      | none => ([Item.ins .dup] ++ c1 ++ [.ins eq, .ins (.jmpIfNot lEnd)], nl1)
+      | some e2 =>
+        let (c2, n2) := compE cx st.scopes e2 .val nl1
+        ([Item.ins .dup] ++ c1 ++ [.ins eq, .ins (.jmpIf sb)] ++ [Item.ins .dup] ++ c2 ++ [.ins eq, .ins (.jmpIfNot lEnd)], n2)
+    let (cb, st1) := compS cx lp body { st with nl := nl2 }.push
+    let fall : Code := if ft then [.ins (.jmp (sb + 1))] else []
+    let (cr, st2) := compS cx lp rest { st1.pop with sb := sb + 1 }
+    (tests ++ [.lbl sb] ++ cb ++ fall ++ [.ins (.jmp endL), .lbl lEnd] ++ cr, st2)
+  | .defaultS body, st =>
+    let endL := match lp with | e :: _ => e.endL | [] => 0
+    let lEnd := st.nl
+    let (cb, st1) := compS cx lp body { st with nl := st.nl + 1 }.push
+    ([.lbl st.sb] ++ cb ++ [.ins (.jmp endL), .lbl lEnd], st1.pop)
 
 /-- lastStmtIsReturn (analysis.go:253-266) on a right-nested statement list. -/
 def lastIsRet : Stmt → Bool
@@ -272,7 +372,7 @@ def initSlotItem (locals args : Nat) : Item :=
 /-- convertFuncDecl (codegen.go:554-680). -/
 def compFunc (cx0 : List (String × Nat × Nat)) (d : FuncDecl) (label nl : Nat) : Code × Nat :=
   let cx : Ctx := { funcs := cx0, args := d.params }
-  let (body, st) := compS cx none (.block d.body) { nl := nl, cnt := 0, scopes := [[]] }
+  let (body, st) := compS cx [] (.block d.body) { nl := nl, cnt := 0, scopes := [[]] }
   -- (the function-level scope [[]] holds named results only; decl.Body is a BlockStmt)
   let tail : Code := if lastIsRet d.body then [] else [.ins .ret]
   ([.lbl label, initSlotItem st.cnt d.params.length] ++ body ++ tail, st.nl)
@@ -309,7 +409,7 @@ def Op.retarget {τ σ : Type} (t : σ) : Op τ → Op σ
   | .not => .not | .boolAnd => .boolAnd | .boolOr => .boolOr
   | .numEq => .numEq | .numNe => .numNe | .equal => .equal | .notEqual => .notEqual
   | .lt => .lt | .le => .le | .gt => .gt | .ge => .ge
-  | .throw => .throw
+  | .throw => .throw | .pack => .pack
 
 /-- size of an item in the long layout (every jump has a 4-byte operand; a removed INITSLOT still has 3 bytes). -/
 def longSize : Item → Nat
